@@ -111,6 +111,8 @@ type reent struct {
 	fromProcess, fromClose, fromReopen bool
 	target                       el.EventType
 	maxDepth                     int
+	// parked-process: the outermost Process announces itself on entered and waits for gate before it re-enters Send
+	entered, gate chan struct{}
 }
 type depthKey struct{}
 
@@ -124,6 +126,13 @@ func (r *reent) reenter(ctx context.Context) {
 	_, _ = r.w.b.Send(context.WithValue(ctx, depthKey{}, d+1), r.target, "reentrant")
 }
 func (r *reent) Process(ctx context.Context, e *el.Event) (*el.Event, error) {
+	if d, _ := ctx.Value(depthKey{}).(int); d == 0 && r.gate != nil {
+		select {
+		case r.entered <- struct{}{}:
+		default:
+		}
+		<-r.gate
+	}
 	if r.fromProcess {
 		r.reenter(ctx)
 	}
@@ -288,6 +297,56 @@ func runScenario(sc Scenario, watchdog, parkDelay time.Duration) Result {
 			inflight := make(chan struct{})
 			go func() { defer close(inflight); _, _ = b.Send(ctx, "outer", "x") }()
 			ok = r.step(sc.Op, func() error { return otherOp(b, sc.Op) })
+			if ok {
+				ok = r.step("Send(outer) in flight returns", func() error { <-inflight; return nil })
+			}
+		}
+	case "parked-process":
+		// a Send is in flight, its node parked inside Process; a registry call is STARTED (and given time to block, should it
+		// want to wait for the Send); only then the node calls Send again.  The registry call must complete without waiting
+		// for in-flight Sends, the re-entrant Send must get through.
+		re := &reent{w: w, typ: el.NodeTypeFilter, target: target, maxDepth: 1, fromProcess: true, entered: make(chan struct{}, 1), gate: make(chan struct{})}
+		must(b.RegisterNode("re", re))
+		must(b.RegisterNode("fmt2", &plain{typ: el.NodeTypeFormatter}))
+		must(b.RegisterNode("sink2", &plain{typ: el.NodeTypeSink}))
+		must(b.RegisterNode("fmt3", &plain{typ: el.NodeTypeFormatter}))
+		must(b.RegisterNode("sink3", &plain{typ: el.NodeTypeSink}))
+		must(b.RegisterNode("unused", &plain{typ: el.NodeTypeFilter}))
+		must(b.RegisterPipeline(el.Pipeline{PipelineID: "outer", EventType: "outer", NodeIDs: []el.NodeID{"re", "fmt2", "sink2"}}))
+		must(b.RegisterPipeline(el.Pipeline{PipelineID: "outer2", EventType: "outer", NodeIDs: []el.NodeID{"fmt3", "sink3"}}))
+		inflight := make(chan struct{})
+		go func() { defer close(inflight); _, _ = b.Send(ctx, "outer", "x") }()
+		ok = r.step("Send(outer) reaches the node", func() error { <-re.entered; return nil })
+		if ok {
+			opDone := make(chan struct{})
+			go func() {
+				defer close(opDone)
+				switch sc.Op {
+				case "RemovePipelineAndNodes(other pipeline)":
+					_, _ = b.RemovePipelineAndNodes(ctx, "outer", "outer2")
+				case "RemovePipelineAndNodes(in-flight pipeline)":
+					_, _ = b.RemovePipelineAndNodes(ctx, "outer", "outer")
+				case "RemovePipeline":
+					_ = b.RemovePipeline("outer", "outer2")
+				case "RegisterPipeline":
+					_ = b.RegisterPipeline(el.Pipeline{PipelineID: "outer3", EventType: "outer", NodeIDs: []el.NodeID{"fmt3", "sink3"}})
+				case "RemoveNode":
+					_ = b.RemoveNode(ctx, "unused")
+				case "RegisterNode":
+					_ = b.RegisterNode("extra", &plain{typ: el.NodeTypeFilter})
+				case "SetSuccessThreshold":
+					_ = b.SetSuccessThreshold("outer", 0)
+				case "SetSuccessThresholdSinks":
+					_ = b.SetSuccessThresholdSinks("outer", 0)
+				case "Reopen":
+					_ = b.Reopen(ctx)
+				default:
+					panic("unknown op " + sc.Op)
+				}
+			}()
+			time.Sleep(parkDelay) // started: the call has had time to take the lock and to block, should it wait for Sends
+			close(re.gate)        // now the node calls Send re-entrantly
+			ok = r.step(sc.Op+" returns", func() error { <-opDone; return nil })
 			if ok {
 				ok = r.step("Send(outer) in flight returns", func() error { <-inflight; return nil })
 			}
@@ -463,6 +522,15 @@ func allScenarios(r *hc.Rand, repeat int) []Scenario {
 			for _, op := range []string{"RegisterNode", "RegisterPipeline", "RemovePipeline", "SetSuccessThreshold", "SetSuccessThresholdSinks",
 				"SuccessThreshold", "SuccessThresholdSinks", "IsAnyPipelineRegistered", "Reopen", "RemoveNodeUnknown", "FailingCalls"} {
 				add(Scenario{Kind: "concurrent-op", Op: op, Target: "other", Depth: 2, Parked: parked})
+			}
+			// a registry call started while a Send is in flight whose node then re-enters Send
+			if !parked {
+				for _, op := range []string{"RemovePipelineAndNodes(other pipeline)", "RemovePipelineAndNodes(in-flight pipeline)", "RemovePipeline", "RegisterPipeline",
+					"RemoveNode", "RegisterNode", "SetSuccessThreshold", "SetSuccessThresholdSinks", "Reopen"} {
+					for _, tgt := range []string{"other", "self"} {
+						add(Scenario{Kind: "parked-process", Op: op, Target: tgt})
+					}
+				}
 			}
 			// pairs of operations against each other
 			if !parked {
